@@ -122,6 +122,7 @@ Section ExprInd.
   Hypothesis Hplist : forall l, Q l -> P (EPList l).
   Hypothesis Hobj : forall f pid x, P x -> P (EObj f pid x).
   Hypothesis Hmenu : forall pid it mn, P it -> P mn -> P (EMenu pid it mn).
+  Hypothesis Hthe : forall k i, P (EThe k i).
   Hypothesis Hnil : Q [].
   Hypothesis Hcons : forall x l, P x -> Q l -> Q (x :: l).
   Fixpoint expr_ind2 (e : expr) : P e :=
@@ -135,6 +136,7 @@ Section ExprInd.
     | EList l => Hlist l (go l) | EPList l => Hplist l (go l)
     | EObj f pid x => Hobj f pid x (expr_ind2 x)
     | EMenu pid it mn => Hmenu pid it mn (expr_ind2 it) (expr_ind2 mn)
+    | EThe k i => Hthe k i
     end.
 End ExprInd.
 
@@ -253,7 +255,7 @@ Lemma exec_const en k : wf_e en (EConst k) -> exec_spec en (EConst k).
 Proof.
   intros [Hk Hs6] d off len a fuel r m Hag Hc Hoff Hlen.
   rewrite after_e_leaf by reflexivity. cbn [compile_e reify_e] in *. unfold compile_const in *.
-  destruct Hag as (Hn & Hlf & Hcs & Hb & Hp & Hl).
+  destruct Hag as (Hn & Hlf & Hcs & Hb & Hp & Hl & _).
   assert (Hsc : scale m (scaled k) = (m, Z.of_nat k)) by (unfold scaled; apply scale_six; [exact Hb | lia]).
   destruct (scaled k <? 256) eqn:E.
   - rewrite !zlen_cons, zlen_nil in *.
@@ -297,7 +299,7 @@ Lemma exec_loc en i : wf_e en (ELoc i) -> exec_spec en (ELoc i).
 Proof.
   intros [Hi H256] d off len a fuel r m Hag Hc Hoff Hlen.
   rewrite after_e_leaf by reflexivity. cbn [compile_e reify_e] in *. rewrite !zlen_cons, zlen_nil in *.
-  destruct Hag as (_ & _ & _ & Hb & _ & Hl).
+  destruct Hag as (_ & _ & _ & Hb & _ & Hl & _).
   assert (Hsc : scale m (scaled i) = (m, Z.of_nat i)) by (unfold scaled; apply scale_six; [exact Hb | lia]).
   assert (Hs : exists r', step d a r m = Ok (a + 2, r', push m (nth i (e_locals en) (Leaf KLocal "" 0 true)))).
   { eapply step_2; [exact Hc | vm_compute; reflexivity | reflexivity |].
@@ -676,6 +678,68 @@ Qed.
 Lemma wf_lexpr_args en k l : wf_e en (lexpr k l) -> wf_args en l.
 Proof. destruct k; cbn [lexpr wf_e]; rewrite wf_args_eq; tauto. Qed.
 
+(* ---- the zero-operand "the" forms ---- *)
+Definition the_proc (k : thekind) : string := match k with TSystem => "SystemPropertiesOpcode" | _ => "SpecialPropertiesOpcode" end.
+Definition the_opk (k : thekind) : opclass := match k with TSystem => OSystemProps | _ => OSpecialProps end.
+Lemma tbl_the k : assocZ (u8 (b 92) * 256 + u8 (b (the_code k))) BI_OPCODES = Some (2, "BiOpcode", the_proc k, "").
+Proof. destruct k; vm_compute; reflexivity. Qed.
+Lemma the_len k : (List.length (the_table k) <= 64)%nat.
+Proof. destruct k; vm_compute; lia. Qed.
+Lemma the_len6 k : k <> TSystem -> List.length (the_table k) = 6%nat.
+Proof. destruct k; intros H; try reflexivity. congruence. Qed.
+Lemma the_small k i : (i < List.length (the_table k))%nat -> (i + 6 < 512)%nat.
+Proof. pose proof (the_len k). lia. Qed.
+Lemma the_num_nat k i : the_num k i = Z.of_nat (match k with TDateTime => i + 6 | _ => i end).
+Proof. destruct k; unfold the_num; lia. Qed.
+
+Lemma the_process k i (m : mstate) po : (i < List.length (the_table k))%nat -> c_tell (m_ctx m) = false ->
+  m_stack m = Leaf KConst (str_of_int (the_num k i)) po true :: List.tl (m_stack m) ->
+  forall st, List.tl (m_stack m) = st ->
+  forall pq, process (the_opk k) 0 0 pq m = Ok (push (with_stack m st) (the_node k i pq)).
+Proof.
+  intros Hi Ht Hst st Est pq. pose proof (the_small k i Hi) as Hs.
+  assert (Epop : pop m = Ok (Leaf KConst (str_of_int (the_num k i)) po true, with_stack m st)).
+  { unfold pop. rewrite Hst, Est. reflexivity. }
+  assert (Eint : int_name (Leaf KConst (str_of_int (the_num k i)) po true) = Ok (the_num k i)).
+  { unfold int_name. cbn [name_of]. rewrite the_num_nat. rewrite int_of_str_small by (destruct k; lia). reflexivity. }
+  destruct k; cbn [the_opk process the_table the_node] in *.
+  - unfold special_props. rewrite Epop. cbn [bind]. rewrite Eint. cbn [bind]. unfold the_num.
+    assert (H6 : (i < 6)%nat) by (pose proof (the_len6 TSpecial ltac:(discriminate)) as L6; cbn [the_table] in L6; lia).
+    destruct (Z.ltb_spec (Z.of_nat i) 6); [|lia]. rewrite nth_name_ok by exact Hi. reflexivity.
+  - unfold special_props. rewrite Epop. cbn [bind]. rewrite Eint. cbn [bind]. unfold the_num.
+    assert (H6 : (i < 6)%nat) by (pose proof (the_len6 TDateTime ltac:(discriminate)) as L6; cbn [the_table] in L6; lia).
+    destruct (Z.ltb_spec (Z.of_nat i + 6) 6); [lia|]. destruct (Z.ltb_spec (Z.of_nat i + 6) 12); [|lia].
+    replace (Z.of_nat i + 6 - 6) with (Z.of_nat i) by lia. rewrite nth_name_ok by exact Hi. reflexivity.
+  - unfold system_props. rewrite Epop. cbn [bind]. rewrite Eint. cbn [bind]. unfold the_num.
+    rewrite nth_name_ok by exact Hi. cbn [bind].
+    assert (Hc : c_tell (m_ctx (with_stack m st)) = false) by (destruct m; exact Ht). rewrite Hc. reflexivity.
+Qed.
+
+Lemma exec_the en k i : wf_e en (EThe k i) -> exec_spec en (EThe k i).
+Proof.
+  intros Hi d off len a fuel r m Hag Hc Hoff Hlen. cbn [wf_e] in Hi.
+  pose proof (the_small k i Hi) as Hsm.
+  cbn [compile_e ninstr] in *. rewrite !zlen_app in *. change (zlen [b 92; b (the_code k)]) with 2 in *.
+  apply code_at_app in Hc. destruct Hc as [Hci Hco].
+  pose proof (zlen_nonneg (compile_int (the_num k i))).
+  assert (Hwi : wf_e en (EInt (the_num k i))) by (cbn [wf_e]; rewrite the_num_nat; destruct k; lia).
+  replace (2 + fuel)%nat with (1 + (1 + fuel))%nat by lia.
+  destruct (exec_int en (the_num k i) Hwi d off len a (1 + fuel)%nat r m Hag Hci ltac:(lia) ltac:(cbn [compile_e]; lia)) as [r1 E1].
+  cbn [ninstr compile_e] in E1. rewrite E1.
+  set (m1 := after_e en a (EInt (the_num k i)) m). set (a1 := a + zlen (compile_int (the_num k i))) in *.
+  assert (Htell : c_tell (m_ctx m1) = false).
+  { pose proof (agrees_after_e en a (EInt (the_num k i)) m Hag) as H1. fold m1 in H1. unfold agrees in H1. tauto. }
+  assert (Hs : step d a1 r1 m1 = Ok (a1 + 2, r1, after_e en a (EThe k i) m)).
+  { eapply step_bi with (proc0 := "SoundPropertiesOpcode") (attr0 := "") (oc := the_opk k);
+      [exact Hco | reflexivity | apply tbl_the | destruct k; reflexivity |].
+    rewrite (the_process k i m1 a Hi Htell) with (st := m_stack m).
+    - f_equal; try (apply mstate_eq; [ | | unfold push, with_stack; cbn [m_fn]; subst m1; rewrite !after_e_globals; cbn [globals_e]; reflexivity | .. ];
+        subst m1 a1; destruct m as [st [? ? ? ? ? ? ?] cx]; reflexivity).
+    - subst m1. rewrite !after_e_stack. reflexivity.
+    - subst m1. rewrite !after_e_stack. reflexivity. }
+  exists r1. cbn [Nat.add]. erewrite run_ops_step; [| subst a1; lia | exact Hs]. f_equal. subst a1. lia.
+Qed.
+
 (* the core of C02: any expression tree, any depth, any width *)
 Theorem exec_e en e : wf_e en e -> exec_spec en e.
 Proof.
@@ -690,6 +754,7 @@ Proof.
   - intros l IHl Hwf. apply (exec_lexpr en KPListLit l); [apply IHl; apply (wf_lexpr_args en KPListLit); exact Hwf | exact Hwf].
   - intros f pid x IHx Hwf. apply exec_obj; [apply IHx; apply Hwf | exact Hwf].
   - intros pid it mn IHi IHm Hwf. apply exec_menu; [apply IHi; apply Hwf | apply IHm; apply Hwf | exact Hwf].
+  - intros k i Hwf. apply exec_the. exact Hwf.
   - intros _. apply exec_args_nil.
   - intros x l IHx IHl [Hx Hl]. apply exec_args_cons; auto.
 Qed.
